@@ -503,7 +503,7 @@ pub fn run(ctx: &Ctx) -> Report {
   let mut rep = Report::default();
   let mut orc = Oracle::spawn();
   let mut rng = Rng::new(ctx.seed);
-  rep.rule = "(a) validation: structured ASCII and JSON documents for the 9 (quantity,width) instances - <= 7 cells / ranges over <= 3 depths listed in increasing, decreasing or random order, half of them with one mutation (index = n_cells, n_cells+1, range ending one past the domain, inverted range, depth max+1..max+3 / 64 / 99 / 200 / 255, end or index = type maximum, duplicated / parent / child cell, trailing depth mark beyond the maximum) - accept/reject decision and decoded MOC compared with extracted text_accept/text_decode, accepted MOCs through extracted valid_mocb; (b) totality: character-level mutations of 9 valid text documents through 13 decoders / store loaders in-process (panic + allocation monitor), and FITS documents (range S/T/F u16/u32/u64, NUNIQ, ST v2, multi-order map and sky map samples cut to 4 blocks) with a structural sweep (every size / type keyword of the extension header set to values derived from its current value: v-1, v+1, v/2, v/4, 2v, v-4, 4, 8, 0, 1; every TFORM set to 16 neighbouring forms) and random single-field mutations (26 boundary values on every card, blanked / misspelt keywords, truncation at any offset, randomised or extreme data values) decoded in a child process (exit status, panic, abort, largest allocation request). non-trivial = >= 2 items (a) / any mutated document (b); distinct = distinct case line".to_string();
+  rep.rule = "(a) validation: structured ASCII and JSON documents for the 9 (quantity,width) instances - <= 7 cells / ranges over <= 3 depths listed in increasing, decreasing or random order, half of them with one mutation (index = n_cells, n_cells+1, range ending one past the domain, inverted range, depth max+1..max+3 / 64 / 99 / 200 / 255, end or index = type maximum, duplicated / parent / child cell, trailing depth mark beyond the maximum) - accept/reject decision and decoded MOC compared with extracted text_accept/text_decode, accepted MOCs through extracted valid_mocb; (b) totality: character-level mutations of 9 valid text documents through 13 decoders / store loaders in-process (panic + allocation monitor), and FITS documents (range S/T/F u16/u32/u64, NUNIQ, ST v2, multi-order map and sky map samples cut to 4 blocks) with a structural sweep (every size / type keyword of the extension header set to values derived from its current value: v-1, v+1, v/2, v/4, 2v, v-4, 4, 8, 0, 1; every TFORM set to 16 neighbouring forms; every one of the first 12 data words of the valued maps set to 14 special binary64 / integer values and 7 special binary32 values: NaNs, infinities, negative, -0, subnormal, largest finite) and random single-field mutations (26 boundary values on every card, blanked / misspelt keywords, truncation at any offset, randomised or extreme data values) decoded in a child process (exit status, panic, abort, largest allocation request). non-trivial = >= 2 items (a) / any mutated document (b); distinct = distinct case line".to_string();
   let n_val = ctx.n(6_000, 200_000);
   for _ in 0..n_val {
     validation_case(&mut rep, &mut orc, &mut rng);
@@ -566,11 +566,40 @@ pub fn run(ctx: &Ctx) -> Report {
         }
       }
     }
+    // data-value sweep on the valued maps: every one of the first 8-byte (and 4-byte) words of the data set
+    // to the special binary64 / binary32 values (NaNs of both signs and payloads, infinities, negative,
+    // -0, subnormal, largest finite) and to integer extremes: the values feed sorts, sums and subdivisions
+    let mut value_cases: Vec<(String, String, Vec<u8>)> = Vec::new();
+    for (name, base) in &docs {
+      if (name == "mom" || name == "skymap") && base.len() > 5760 + 16 && base.len() <= 16_000 {
+        let special8: [u64; 14] = [0x7ff8_0000_0000_0000, 0x7ff0_0000_0000_0001, 0xfff8_0000_0000_0000, u64::MAX, 0x7ff0_0000_0000_0000, 0xfff0_0000_0000_0000, 0xbff0_0000_0000_0000, 0x8000_0000_0000_0000, 1, 0x7fef_ffff_ffff_ffff, 0, 3, 4, 0x3ff0_0000_0000_0000];
+        let special4: [u32; 7] = [0x7fc0_0000, 0xffc0_0000, 0x7f80_0000, 0xff80_0000, 0xbf80_0000, 0x7f7f_ffff, 0x0000_0001];
+        let nwords = ((base.len() - 5760) / 8).min(12);
+        for j in 0..nwords {
+          for v in special8 {
+            let mut d = base.clone();
+            d[5760 + 8 * j..5760 + 8 * j + 8].copy_from_slice(&v.to_be_bytes());
+            value_cases.push((name.clone(), format!("data word {} <- {:#018x}", j, v), d));
+          }
+        }
+        if name == "skymap" {
+          for j in 0..nwords {
+            for v in special4 {
+              let mut d = base.clone();
+              d[5760 + 4 * j..5760 + 4 * j + 4].copy_from_slice(&v.to_be_bytes());
+              value_cases.push((name.clone(), format!("data half-word {} <- {:#010x}", j, v), d));
+            }
+          }
+        }
+      }
+    }
+    rep.notes.push(format!("data-value sweep cases: {}", value_cases.len()));
     if !ctx.thorough {
       // quick: every other derived case (all of them in the thorough tier)
       let keep: Vec<_> = cases.into_iter().enumerate().filter(|(i, c)| i % 2 == 0 || c.0 == "skymap" || c.0 == "mom").map(|(_, c)| c).collect();
       cases = keep;
     }
+    cases.extend(value_cases);
     rep.notes.push(format!("structural sweep cases: {}", cases.len()));
   }
   // every base document, unmodified, beside the byte-level reader models
